@@ -39,7 +39,8 @@ Definition cbucket (c : call) : bytes :=
   match c with
   | CCreate b | CDeleteB b | CPut b _ _ _ _ | CDel b _ _ _ | CDels b _ | CVers b _
   | CMpCreate b _ _ _ _ | CMpPart b _ _ _ _ | CMpComplete b _ _ _ _ | CMpAbort b _ _ | CAppend b _ _
-  | CPutTags b _ _ | CDelTags b _ | CPutR b _ _ => b
+  | CPutTags b _ _ | CDelTags b _ | CPutR b _ _ | CDelsC b _ => b
+  | CBadDigest (BPut b _) | CBadDigest (BAppend b _) | CBadDigest (BPart b _ _) => b
   | CCopy _ _ db _ => db
   end.
 Definition is_copy (c : call) : bool := match c with CCopy _ _ _ _ => true | _ => false end.
@@ -59,7 +60,8 @@ Lemma apply_local s c : is_copy c = false ->
   apply_call s c = (fupd s (cbucket c) (bstep c (s (cbucket c))), bres c (s (cbucket c))).
 Proof.
   intros NC. unfold bstep, bres.
-  destruct c; try discriminate NC; cbn [StorageOutbox.apply_call cbucket keyop]; unfold put_rec;
+  destruct c; try match goal with x : badc |- _ => destruct x end;
+    try discriminate NC; cbn [StorageOutbox.apply_call cbucket keyop]; unfold put_rec;
     match goal with |- context [s ?b] => destruct (s b) as [bs|] eqn:E end; cbn [fst snd];
     split_matches; unfold set_key; rewrite ?fupd_same; try reflexivity;
     try (rewrite <- E, fupd_id; reflexivity).
@@ -90,6 +92,7 @@ Proof. intros N1 N2 H. rewrite !res_local, app_other_bucket by (assumption || co
 Definition keycall (c : call) : option (bytes * bytes) :=
   match c with
   | CPut b k _ _ _ | CDel b k _ _ | CPutR b k _ => Some (b, k)
+  | CBadDigest (BPut _ _) => None       (* refused before the bucket is looked at: touches nothing *)
   | _ => keyop c
   end.
 Definition kfull (c : call) (st : vstat) (ks : kstate) (ups : list (N * upload)) : kstate * list (N * upload) * option err :=
@@ -116,7 +119,8 @@ Lemma key_local s c b k : keycall c = Some (b, k) ->
                 snd (kfull c (b_vers bs) (b_objs bs k) (b_ups bs)))
   end.
 Proof.
-  intros H. destruct c; try discriminate H; cbn in H; inversion H; subst;
+  intros H. destruct c; try match goal with x : badc |- _ => destruct x end;
+    try discriminate H; cbn in H; inversion H; subst;
     cbn [StorageOutbox.apply_call keyop]; unfold put_rec;
     (destruct (s b) as [bs|] eqn:E; [|reflexivity]); unfold knew, kfull;
     split_matches; unfold set_key; cbn [fst snd]; try reflexivity;
@@ -124,7 +128,7 @@ Proof.
 Qed.
 
 Lemma keycall_bucket c b k : keycall c = Some (b, k) -> cbucket c = b.
-Proof. destruct c; cbn; intros H; inversion H; reflexivity. Qed.
+Proof. destruct c; try match goal with x : badc |- _ => destruct x end; cbn; intros H; inversion H; reflexivity. Qed.
 Lemma keycall_not_copy c b k : keycall c = Some (b, k) -> is_copy c = false.
 Proof. destruct c; cbn; intros H; try discriminate H; reflexivity. Qed.
 
@@ -220,7 +224,7 @@ Lemma put_replayed s b k cid ct o : o_ifnone o = false -> o_ifmatch o = None ->
   apply_call s (replay_call (ser_put b k cid ct o)) = apply_call s (CPut b k cid ct o).
 Proof.
   intros H1 H2. pose proof (mk_rec_ser b k cid ct o) as M.
-  destruct (replay_call (ser_put b k cid ct o)) as [| |b' k' cid' ct' o'| | | | | | | | | | | |]; try contradiction.
+  destruct (replay_call (ser_put b k cid ct o)) as [| |b' k' cid' ct' o'| | | | | | | | | | | | | |]; try contradiction.
   destruct M as (-> & -> & -> & -> & M & F1 & F2).
   cbn [StorageOutbox.apply_call]. now rewrite M, F1, F2, H1, H2.
 Qed.
@@ -242,10 +246,17 @@ Proof.
     unfold set_key. rewrite fupd_same. cbn [fst b_vers b_objs]. rewrite fupd_shadow. cbn [dels_k]. now rewrite DK.
 Qed.
 
+Lemma delsc_plain st es : forall objs,
+  forallb (fun e => match snd e with Some _ => false | None => true end) es = true ->
+  dels_c st objs es = dels_k st objs (map fst es).
+Proof.
+  induction es as [|[k [c|]] t IH]; intros objs H; cbn in *; [reflexivity | discriminate H|]. now rewrite IH.
+Qed.
+
 Lemma replayed_eq_accepted i c ps : route i c = (None, ps) ->
   forall s, apps s (map replay_call ps) = app s c.
 Proof.
-  intros R s. destruct c as [b|b|b k cid ct o|b k vid ifm|b ks|b v| | | | | | | | | ]; cbn in R; try discriminate R.
+  intros R s. destruct c as [b|b|b k cid ct o|b k vid ifm|b ks|b v| | | | | | | | | |b es|x]; cbn in R; try discriminate R.
   - inversion R; subst. reflexivity.
   - inversion R; subst. reflexivity.
   - destruct (o_ifnone o) eqn:H1; [discriminate R|]. destruct (o_ifmatch o) eqn:H2; [discriminate R|].
@@ -256,13 +267,26 @@ Proof.
     inversion R; subst. reflexivity.
   - destruct (match vers_of i b with Some VEnabled | Some VSuspended => true | _ => false end); [discriminate R|].
     inversion R; subst. apply dels_replayed.
+  - destruct (existsb _ es) eqn:Ex; [discriminate R|]. cbn in R.
+    destruct (match vers_of i b with Some VEnabled | Some VSuspended => true | _ => false end); [discriminate R|].
+    inversion R; subst.
+    assert (Pl : forallb (fun e => match snd e with Some _ => false | None => true end) es = true).
+    { clear -Ex. induction es as [|[k [c|]] t IH]; cbn in *; [reflexivity | discriminate Ex | exact (IH Ex)]. }
+    rewrite <- (map_map fst (fun k => PDel b k None)), dels_replayed.
+    unfold StorageOutbox.app. cbn [StorageOutbox.apply_call]. destruct (s b) as [bs|]; [|reflexivity].
+    now rewrite delsc_plain.
+  - destruct x as [b k|b k|b k u]; cbn in R; try discriminate R.
+    destruct (vers_of i b) as [[| |]|]; try discriminate R; inversion R; subst; reflexivity.
 Qed.
 
 (* ---- independence of a waiting operation from the entries it does not wait for ---- *)
 Lemma route_class i c w ps : route i c = (Some w, ps) -> w = cont_class (KCall c).
 Proof.
-  destruct c; cbn; intros H; try discriminate H;
-    repeat match type of H with (if ?x then _ else _) = _ => destruct x end; inversion H; reflexivity.
+  destruct c; try match goal with x : badc |- _ => destruct x end; cbn; intros H; try discriminate H;
+    repeat match type of H with
+           | (if ?x then _ else _) = _ => destruct x
+           | (match ?x with _ => _ end) = _ => destruct x
+           end; try discriminate H; inversion H; reflexivity.
 Qed.
 
 Lemma replay_bucket p : cbucket (replay_call p) = pl_bucket p.
@@ -341,7 +365,8 @@ Proof.
   assert (OB : forall c, is_copy c = false -> cbucket c <> pl_bucket p -> indep_stmt s (KCall c) (replay_call p)).
   { intros c NC N. split; [apply comm_other_bucket | apply res_other_bucket]; try assumption; congruence. }
   destruct k as [c|r].
-  - destruct c; cbn [cont_class call_class] in C;
+  - destruct c; try match goal with x : badc |- _ => destruct x end; cbn [cont_class call_class] in C;
+      try (split; reflexivity);          (* a refused PutObject touches nothing *)
       try (eapply indep_keycall; [reflexivity | exact C]; fail);
       try (apply OB; [reflexivity|]; cbn [cbucket]; cbn in C; apply bytes_eqb_neq in C; congruence).
     (* CopyObject *)
@@ -530,7 +555,8 @@ Proof.
       destruct (last_conf w (queue s)) eqn:L.
       * rewrite app_nil_r. split; [exact HB | discriminate].
       * destruct HB as [B1 B2]. split; [exact B2|]. intros k E; inversion E; subst. exact B1.
-    + destruct (enqueue (queue s) (next_id s) ps) as [q' n'] eqn:E. cbn [fst snd].
+    + destruct (rejects c); [cbn [fst]; rewrite app_nil_r; split; [exact I | discriminate]|].
+      destruct (enqueue (queue s) (next_id s) ps) as [q' n'] eqn:E. cbn [fst snd].
       pose proof (enqueue_spec ps (queue s) (next_id s)) as (E1 & E2 & E3 & E4). rewrite E in *. cbn [fst snd] in *.
       split; [|discriminate]. split; cbn [inner queue next_id inflight].
       * assert (QC : qcalls q' = qcalls (queue s) ++ map replay_call ps).
@@ -635,7 +661,8 @@ Proof.
   destruct o as [c|r| |]; cbn [StorageOutbox.step].
   - destruct (route (inner s) c) as [[w|] ps].
     + destruct (inflight s); [|apply G]. cbn [fst]; split; try exact I; lia.
-    + pose proof (enqueue_spec ps (queue s) (next_id s)) as (E1 & E2 & E3 & E4).
+    + destruct (rejects c); [cbn [fst]; split; [exact I | lia]|].
+      pose proof (enqueue_spec ps (queue s) (next_id s)) as (E1 & E2 & E3 & E4).
       destruct (enqueue (queue s) (next_id s) ps) as [q' n']. cbn [fst snd queue next_id] in *. split; [apply E2; exact I | exact E3].
   - destruct (inflight s); [|apply G]. cbn [fst]; split; try exact I; lia.
   - destruct (queue s) as [|e t] eqn:Q; [cbn [fst]; rewrite Q; split; [exact I | lia]|].
@@ -670,7 +697,7 @@ Proof.
   { destruct o as [c|r| |]; cbn [StorageOutbox.step] in F1.
     - destruct (route (inner s) c) as [[ww|] ps].
       + rewrite F0 in F1. now destruct (G _ _ F1) as [-> ?].
-      + destruct (enqueue _ _ _). cbn [fst inflight] in F1. congruence.
+      + destruct (rejects c); [cbn [fst] in F1; congruence|]. destruct (enqueue _ _ _). cbn [fst inflight] in F1. congruence.
     - rewrite F0 in F1. destruct (G _ _ F1) as [<- ?]. assumption.
     - destruct (queue s) as [|e t]; [cbn [fst] in F1; congruence|].
       destruct (apply_call (inner s) (replay_call (e_pl e))) as [i' [er|]]; cbn [fst inflight] in F1; congruence.
